@@ -380,12 +380,81 @@ def run(tier, seed, replay):
         lines.append("C16.channel " + json.dumps({"rates": [fr(r) for r in rates], "u": fr(u)}))
         expect.append(("channel", which, gen.used, None, {"rates": rates, "u": u}))
         rep.count("channels=%d" % n)
+    # the trace weight of non-Markovian trajectories: histories of initialize / add_collapse / value on the real
+    # InfluenceMartingale, its continuous segment replaced by an exact one (seg(a, b) = g(b) / g(a), g(t) = 1 + t^2)
+    from qutip.solver.nm_mcsolve import InfluenceMartingale
+
+    class _FakeNm:
+        def __init__(self):
+            self.factor = Fraction(1)
+
+        def rate(self, t, i):
+            return Fraction(self.factor.numerator)
+
+        def rate_shift(self, t):
+            return Fraction(self.factor.denominator - self.factor.numerator)
+
+    def fs(x):
+        return str(Fraction(x))
+    for _ in range(150 if tier == "quick" else 1500):
+        nm = _FakeNm()
+        mart = InfluenceMartingale(nm, 1.0, 50)
+        mart._compute_continuous_martingale = lambda t1, t2: Fraction(1) if t1 == t2 else (1 + t2 * t2) / (1 + t1 * t1)
+        pool_t = [Fraction(k, 2) for k in range(0, 9)]
+        t0 = pool_t[int(rng.integers(0, 3))]
+        ops, outs = [], []
+        nops = int(rng.integers(2, 14))
+        started = False
+        for k in range(nops):
+            r = rng.random()
+            if (not started and r < 0.85) or r < 0.12:
+                if started and rng.random() < 0.5:
+                    tt0, cache = t0, "keep"          # what set_state does for every trajectory of a run
+                else:
+                    tt0 = t0 if rng.random() < 0.8 else pool_t[int(rng.integers(0, 4))]
+                    cache = str(rng.choice(["clear", "times", "times", "keep"]))
+                if cache == "times":
+                    tl = sorted(set([tt0] + [pool_t[int(i)] for i in rng.integers(0, len(pool_t), int(rng.integers(1, 5)))]))
+                    tl = [x for x in tl if x >= tt0]
+                    mart.initialize(tt0, cache=tl)
+                    ops.append(["init", fs(tt0), [fs(x) for x in tl]])
+                else:
+                    mart.initialize(tt0, cache=cache)
+                    ops.append(["init", fs(tt0), cache])
+                t0 = tt0
+                started = True
+                outs.append("ok")
+            elif r < 0.35:
+                tc = pool_t[int(rng.integers(0, len(pool_t)))] + Fraction(1, 4)
+                nm.factor = Fraction(int(rng.integers(1, 8)), int(rng.integers(1, 8)))
+                if nm.factor == 0 or nm.factor.denominator == 0:
+                    nm.factor = Fraction(1, 2)
+                ops.append(["collapse", fs(tc), fs(nm.factor)])
+                try:
+                    mart.add_collapse(tc, 0)
+                    outs.append("ok")
+                except RuntimeError:
+                    outs.append("RuntimeError")
+            else:
+                tq = pool_t[int(rng.integers(0, len(pool_t)))]
+                ops.append(["value", fs(tq)])
+                try:
+                    outs.append(fs(Fraction(mart.value(tq))))
+                except RuntimeError:
+                    outs.append("RuntimeError")
+        lines.append("C16.martingale " + json.dumps({"ops": ops}))
+        expect.append(("martingale", outs, None, None, {"ops": ops}))
+        rep.count("martingale-history")
     model = core.run_driver(lines)
     ndis, first = 0, None
     for line, ex, m in zip(lines, expect, model):
         bad = None
         if isinstance(m, dict) and "error" in m:
             bad = {"model": m}
+        elif ex[0] == "martingale":
+            got = [x if x in ("ok", "RuntimeError") else fs(Fraction(x)) for x in m]
+            if got != ex[1]:
+                bad = {"model": got, "impl": ex[1], "case": ex[4]}
         elif ex[0] == "search":
             _, got, ncalls, mock, case = ex
             if (m == "RuntimeError") != (got == "RuntimeError"):
